@@ -70,6 +70,9 @@ func checkC01(c *Ctx) {
 	r.Rule("C01.f", "every checked-in generated file type-checks (go/types)", 20)
 	r.Rule("C01.j", "declaration, call and type emission have the documented closed forms / templates (the pins of C03.ab and C15.bcd: records, unions, constructors, funcs, vars, partial application, type printer — necessary for the emitted program to compile and to mean what the source says)", 40)
 	r.Import("C10.", "C01.g", "`=` / `<>` are lowered to frt.OpEqual / frt.OpNotEqual, which are total structural equality (the C10 conditions, which are also necessary for C01: a comparison that panics or answers by identity changes the program's output)", 6, func() { checkC10(c) })
+	r.Import("C12.", "C01.k", "standard-library calls behave as documented: pkg/slice is pure (C12), its functions compute their list specification (C13), dict/strings/buf/frt helpers are what their signatures promise (C14) — a program's output depends on them", 100, func() { checkC12(c) })
+	r.Import("C13.", "C01.k", "", 100, func() { checkC13(c) })
+	r.Import("C14.", "C01.k", "", 100, func() { checkC14(c) })
 	r.Import("C08.", "C01.i", "binary operators group by the published table and associate to the left (the C08 conditions: a different grouping changes the value a program computes)", 40, func() { checkC08(c) })
 	r.Import("C11.anchor", "C01.h", "string and interpolated literals reach the Go text through the one emission path whose closed forms C11 decides (an interpolated literal is always frt.SInterP(format, names…), whatever its number of holes)", 6, func() { checkC11Anchors(c) })
 	f := c.LoadFC("fc")
